@@ -9,7 +9,7 @@
    That a C call's writes stay inside its outputs is established by the
    footprint correspondences (canaries/guard pages of C01/C03/C13) and TSan,
    not here: real hardware interleavings are outside any Gallina model. *)
-Require Import VV.Conc VV.ConcProofs.
+Require Import VV.Conc VV.ConcProofs VV.ConcCodec VV.Base VV.Tagged.
 Require Import VVgen.Globals.
 From Coq Require Import List NArith String.
 Import ListNotations.
@@ -39,6 +39,30 @@ Print Assumptions C17_race_free.
 Theorem C17_no_writable_globals : writable_globals = [].
 Proof. exact (eq_refl _). Qed.
 Print Assumptions C17_no_writable_globals.
+
+(* instance for a real codec model: any number of threads running the tagged
+   encoder into pairwise disjoint 9-byte destinations, plus any number of
+   threads running the tagged decoder on inputs that no encoder writes to (the
+   inputs may be shared among the readers): under EVERY schedule no two threads
+   ever race, and an encoder that has finished returned its length and left
+   exactly its bytes in its destination *)
+Theorem C17_tagged_threads_safe :
+  forall (dsts : list loc) (xs : list N), List.length dsts = List.length xs ->
+  (forall i j, i <> j -> (i < List.length dsts)%nat -> (j < List.length dsts)%nat ->
+     forall l, in_range (nth i dsts 0%N) 9 l -> ~ in_range (nth j dsts 0%N) 9 l) ->
+  forall (srcs : list loc),
+  (forall i s l, (i < List.length dsts)%nat -> In s srcs ->
+     in_range (nth i dsts 0%N) 9 l -> ~ in_range s 9 l) ->
+  forall sched,
+  ~ races (snd (crun sched (mem0, threads dsts xs srcs))) /\
+  forall i r, (i < List.length dsts)%nat ->
+    nth_error (snd (crun sched (mem0, threads dsts xs srcs))) i = Some (Ret r) ->
+    r = [tagged_len (nth i xs 0%N)] /\
+    forall j, (j < List.length (tagged_put64 (nth i xs 0%N)))%nat ->
+      fst (crun sched (mem0, threads dsts xs srcs)) (nth i dsts 0%N + N.of_nat j)%N
+      = nth j (tagged_put64 (nth i xs 0%N)) 0%N.
+Proof. exact tagged_threads_safe. Qed.
+Print Assumptions C17_tagged_threads_safe.
 
 (* non-vacuity: two calls sharing the read-only input at location 0 and
    writing disjoint outputs 10 and 20; one interleaving, solo results *)
